@@ -5,6 +5,26 @@ import json, subprocess
 props = [json.loads(l) for l in open('/verif/properties.jsonl')]
 
 CLAIMED = {
+ "C01": dict(level="exploration",
+   text="Real CASE handshakes between a device holding 1-3 generated fabrics (with/without ICAC, CATs, reused node ids) and a controller, cold or with warm resumption caches, under an on-path attacker that mutates one message kind (value/payload bit flips, truncation, extension, hostile points, replay of a recorded message; consistently or once) and drops/duplicates/delays datagrams. Session tables of both stacks are compared with generator ground truth: binding to the addressed fabric / NOC node id / CATs, directional key agreement whenever both ends hold a session, and no session after a consumed value-level mutation of Sigma1/2/3/Sigma2Resume.",
+   note="Mutations count only when the mutated copy was the first copy of that counter consumed by the receiving stack; fields the protocol does not authenticate on the resumption path are not required to prevent a session; the hostile-initiator (forged chain) sub-check is added with the certificate forger of C19.",
+   technique="deterministic two-node simulation, generated adversary (mutation + loss plans), session-table invariants vs generator ground truth",
+   design="3/C01"),
+ "C02": dict(level="exploration",
+   text="Real PASE handshakes from 1-2 initiators (right / wrong / one-bit-off passcodes) against a device with a generated basic commissioning window, with window close/reopen operations fired between handshake messages, start times placed around the window expiry, one generated message mutation (value and payload bit flips, truncation, extension, invalid/identity/foreign curve points, replay) and a loss/duplication/delay plan; plus attempt sequences that cross the 20-failure revocation. Oracle from ground truth and from what the stacks consumed: a PASE session exists only with the right passcode, no consumed value-level mutation and an open, unexpired window at the instant Pake3 was consumed; keys pair up; no reserved slot is left; advertisement equals window state.",
+   note="Enhanced (verifier) windows are not generated (no public verifier computation); expiry is observed through the handshake path (the IM task that polls expiry is not part of this scenario).",
+   technique="deterministic multi-node simulation, generated histories of handshake steps x window operations x mutations, invariants vs ground truth",
+   design="3/C02"),
+ "C03": dict(level="exploration",
+   text="Component level (L1): PacketHdr encode/decode driven the way the transport drives it, compared byte-for-byte with an independent spec-derived reference encoder (own AES-CCM), round-trips of every header shape and payload length, and tampering (every single-bit flip exhaustively for small packets, sampled for large ones, truncation, extension, other key, opposite direction key, other source node in the nonce, flag bytes replaced, header/body splices) that must be rejected; unsecured packets decode to what the altered bytes say or error.",
+   note="The clause 'rejected without changing counters, exchanges or keys' is covered at node level by the simulator checks (C09 duplicates/R-invariants, C10 crafted injections).",
+   technique="proptest round-trip + differential against independent reference encoder + exhaustive single-bit tamper",
+   design="3/C03"),
+ "C05": dict(level="exploration",
+   text="Differential testing of AccessReq::allow / AclEntry::allow / is_endpoint_accessible against an independently written implementation of the Matter access-control algorithm over generated fabric tables, entries (null/empty/non-empty subjects and targets, CATs with versions, device types), accessors and element access declarations, both directions; model-free relational checks (fabric isolation, monotonicity under entry removal, PASE always / unauthenticated never); exhaustive privilege x access-bits x operation table.",
+   note="Whether a ProxyView entry grants View is treated as unspecified (the code documents its choice, the statement does not name ProxyView); the Groupcast auxiliary grant is covered by the relational checks only.",
+   technique="proptest differential vs reference ACL algorithm + metamorphic relations + exhaustive privilege table",
+   design="3/C05"),
  "C04": dict(level="exploration",
    text="Model-based property testing: generated histories of counter values are fed to the real receive window (RxCtrState/GroupCtrStore) and to a set-based reference model written from the statement; verdicts are compared in both directions on every step. In addition every (16-bit bitmap, distance -20..=20) one-step transition is enumerated exhaustively and followed by a probe of all neighbouring values. This is exploration (not proof) of the history space, exhaustive only for the one-step table.",
    note="Trusts the verif hooks to expose the real window state; the transport-level clause (duplicate surfaces before exchange processing) is exercised by the simulator checks C03/C09.",
